@@ -47,8 +47,9 @@ class M(Readable):
 class CoopSock:
     """socket object handed to the real TCPRequestHandler: scripted request chunks, every recv / send is a scheduling
     point; the bytes sent are appended to the shared event log in the order they really happen"""
-    def __init__(self, sched, label, chunks, split_send=False):
+    def __init__(self, sched, label, chunks, split_send=False, eof_when=None):
         self.sched, self.label = sched, label
+        self.eof_when = eof_when      # optional predicate: the peer closes only when it holds
         self.chunks = list(chunks)
         self.split_send = split_send
         self.out = []
@@ -61,6 +62,8 @@ class CoopSock:
     def recv(self, n):
         self.sched.point('recv', self.label)
         if not self.chunks:
+            if self.eof_when is not None:
+                self.sched.point('recv-eof', self.label, self.eof_when)
             self.sched.log.append(('eof', self.label))
             return b''
         c = self.chunks.pop(0)
@@ -70,6 +73,7 @@ class CoopSock:
 
     def sendall(self, data):
         data = bytes(data)
+        self.sched.log.append(('intend', self.label, data))      # the whole frame as handed over by the sender
         if self.closed:
             # what a closed socket does; the attempt is logged (the oracle looks at attempts made for changes that
             # happened after the disconnect), nothing is delivered
